@@ -165,7 +165,7 @@ func PuppetQuote(w io.Writer, str string) {
 
 	WriteByte(b, '\'')
 	for _, c := range str {
-		if c < 0x20 {
+		if c < 0x20 || c == utf8.RuneError {
 			b.Truncate(begin)
 			puppetDoubleQuote(str, b)
 			return
@@ -199,7 +199,7 @@ func puppetDoubleQuote(str string, b io.Writer) {
 		case '$':
 			WriteString(b, `\$`)
 		default:
-			if c < 0x20 {
+			if c < 0x20 || c == utf8.RuneError {
 				_, err := fmt.Fprintf(b, `\u{%X}`, c)
 				if err != nil {
 					panic(err)
